@@ -269,6 +269,42 @@ def check(prog, rep, tier):
         for (rc, rn) in rd:
             check_footer(prog, rep, "countmin", "CountMinSketch", wfmt, wslots, rc, rn)
             check_payload(prog, rep, "countmin", rc, rn, "_bins")
+    # derived geometry reported after a load agrees with what the constructor derives from the same width / depth
+    rep.rule("C05.derived-geometry", "confidence and error rate of a loaded sketch are derived from its width / depth as the constructor does", floor=1)
+    from ..expr import mapx
+    init = prog.method("CountMinSketch", "__init__")
+    cons = None
+    for p in paths(prog, "CountMinSketch", init):
+        if p.exit[0] != "return":
+            continue
+        wv, dv = p.fields.get((SELF, "_CountMinSketch__width")), p.fields.get((SELF, "_CountMinSketch__depth"))
+        if wv is not None and dv is not None and any(n == ("p", "width") for n in walk(wv)) and any(n == ("p", "depth") for n in walk(dv)):
+            sub = lambda e: mapx(strip_epochs(e), lambda n: ("W",) if n == strip_epochs(wv) else (("D",) if n == strip_epochs(dv) else None))  # noqa: E731
+            cons = (canon(sub(p.fields.get((SELF, "_CountMinSketch__confidence"), C(None)))), canon(sub(p.fields.get((SELF, "_CountMinSketch__error_rate"), C(None)))))
+            break
+    if cons is None:
+        raise AnalysisError("C05: constructor path from (width, depth) not found")
+    okg = True
+    for (rc, rn) in (("CountMinSketch", "frombytes"), ("CountMinSketch", "__load")):
+        f, ps = reader_paths(prog, rc, rn)
+        for p in ps:
+            obj = loaded_obj(f, p)
+            wv, dv = p.fields.get((obj, "_CountMinSketch__width")), p.fields.get((obj, "_CountMinSketch__depth"))
+            if wv is None or dv is None:
+                continue
+            sub = lambda e: mapx(strip_epochs(e), lambda n: ("W",) if n == strip_epochs(wv) else (("D",) if n == strip_epochs(dv) else None))  # noqa: E731
+            got = (canon(sub(p.fields.get((obj, "_CountMinSketch__confidence"), C(None)))), canon(sub(p.fields.get((obj, "_CountMinSketch__error_rate"), C(None)))))
+            if got != cons:
+                which = "confidence" if got[0] != cons[0] else "error_rate"
+                rep.bad("C05.derived-geometry", f"{rc}.{rn}", f"{which} = {nshow(got[0] if which == 'confidence' else got[1])}",
+                        f"a loaded sketch reports {which} = {nshow(got[0] if which == 'confidence' else got[1])} (W, D = its width, depth) but a sketch constructed with the same width and depth "
+                        f"reports {nshow(cons[0] if which == 'confidence' else cons[1])}: the reloaded structure does not report the same geometry", f.where())
+                okg = False
+                break
+        if not okg:
+            break
+    if okg:
+        rep.ok("C05.derived-geometry", "count-min: confidence = 1 - 1/2^depth, error_rate = 2/width in constructor and loaders alike")
     # ---------------------------------------------------------------- expanding / rotating
     for wctx in ("ExpandingBloomFilter", "RotatingBloomFilter"):
         wf, em = emissions(prog, wctx)
@@ -520,5 +556,7 @@ MUTANTS = [
     Mutant("frombytes drops the re-supplied hash", _B, replace_expr("BloomFilter", "frombytes", "blm._load(b, hash_function=blm.hash_function)", "blm._load(b)"), rule="C05.resupplied"),
     Mutant("StreamThreshold.frombytes ignores the threshold", _CM, replace_expr("StreamThreshold", "frombytes", "StreamThreshold(width=width, depth=depth, threshold=threshold, hash_function=hash_function)", "StreamThreshold(width=width, depth=depth, hash_function=hash_function)"), rule="C05.resupplied"),
     Mutant("cuckoo frombytes applies the error rate before loading", _CK, seq(del_stmt("CuckooFilter", "frombytes", "cku._set_error_rate(error_rate)"), insert_stmt("CuckooFilter", "frombytes", "cku._set_error_rate(error_rate)", before="cku._load(b)")), rule="C05.resupplied"),
+    Mutant("loaded sketch reports error_rate 3/width", _CM, replace_expr("CountMinSketch", "_parse_bytes", "2 / self.width", "3 / self.width"), rule="C05.derived"),
+    Mutant("loaded sketch keeps confidence 0.0", _CM, del_stmt("CountMinSketch", "_parse_bytes", "self.__confidence ="), rule="C05.derived"),
     Mutant("counting cuckoo export packs max_swaps first", _CC, replace_expr("CountingCuckooFilter", "export", "self.__COUNTING_CUCKOO_FOOTER_STRUCT.pack(self.bucket_size, self.max_swaps)", "self.__COUNTING_CUCKOO_FOOTER_STRUCT.pack(self.max_swaps, self.bucket_size)"), rule="C05.slot"),
 ]
